@@ -216,6 +216,7 @@ func VerifC13Interleaved() {
 	verifrt.Assert(bs[0].GetActiveConnections() == 0, "gauge is zero at quiescence")
 	verifrt.Assert(m.BackendMetrics[bs[0].Name].ActiveConnections == 0, "published gauge mirror is zero at quiescence")
 	verifrt.Assert(m.TotalRequests == 2 && m.SuccessfulRequests == 2, "both concurrent requests are counted")
+	verifrt.Assert(m.BackendMetrics[bs[0].Name].TotalRequests == 2, "the backend's own total counts every request it was sent, also when the two finish at the same time")
 	return
 }
 
